@@ -1,37 +1,40 @@
 /-
-  C18 (continued) — dump then parse on the merge-control vocabulary, up to EFFECTIVE flags.
+  C18 (continued) — dump then parse on the merge-control vocabulary: EVERY document.
 
   Property text: "Writing any parsed document with the library's dump and parsing the text back
   yields a document that is interchangeable with the original: substituted at any position of a
   merge sequence it produces the same merged config, it evaluates to the same value, and it carries
   the same user metadata. Dumping the re-parsed document produces the same text again."
 
-  `C18_roundtrip_partial` (AY/Props/C18.lean) covers tag-free documents, where dump ∘ parse is the
-  identity.  With merge-control tags it is not: the dumper drops an explicit `delete / allow_new /
-  safe / priority` that equals the value on its stack of enclosing dumped nodes, and the re-parsed
-  node re-inherits it.  Here: for documents over the merge-control vocabulary (`rawMC`: mappings
-  with distinct keys, lists, scalars; tags none or a merge-control tag with ANY of the keywords
-  `priority / delete / allow_new / safe` and metadata), under the decidable hypothesis
-  `noExplicitDefault n` on the parsed tree, the dump re-parses to a tree with the same kinds, keys,
-  scalar content, user metadata and the same EFFECTIVE `priority / delete / allow_new / safe` at
-  every node (`effEq`) — more precisely to the original tree with some explicit flags removed where
-  they repeat the inherited value (`simN`) — and dumping the re-parsed tree gives the same dump.
+  Domain (`rawMC`): mappings with distinct keys, lists, scalars; every node untagged or carrying a
+  merge-control tag with ANY combination of the keywords `priority / delete / allow_new / safe` and
+  user metadata; any nesting; any source flags.  There is no exclusion of "explicit defaults" any more.
 
-  `noExplicitDefault n` (`nedWith {} n`, AY/Lemmas/C18Effective.lean) says, at every node:
-    (1) no explicit flag equals its default: `priority` ≠ default priority, `delete` ≠ class default,
-        `allow_new` ≠ True, `safe` ≠ True and `safe` ≠ the source-level flag
-        — negation: findings D17a, D17g (delete / allow_new), D17f (safe; an explicit `safe = True` that
-          differs from the source flag, formerly D17j, now round-trips — `C18_safe_tag_roundtrip` —
-          but stays outside this sufficient hypothesis);
-    (2) a `delete / allow_new / safe` value on the dumper's stack at that node is the value the node
-        inherits — this can only fail below a container whose single kept flag is written as a
-        simple tag (`!merge`, `!del`, `!new`, …: the entry is removed before the stack push) and
-        contradicts the stack: a mechanism NOT among the recorded findings, proved on a witness
-        below (`C18_shortcut_tag_stack_counterexample`) and replayed on the implementation.
-  The hypothesis is sufficient, not necessary ((1) also excludes harmless cases such as an explicit
-  `priority = 0`).
+  `C18_roundtrip_effective`: the dump of the parsed tree `n` re-parses to a tree `n'` with
+    * the same node kinds, keys, key order, scalar content and user metadata,
+    * the same EFFECTIVE `priority`, `delete`, `allow_new`, `safe` at every node,
+    * the same explicit `delete = True` at every node (it drives the remove-emptied-key idiom),
+    * the same hand-down of every container to present and future children (`childKw`: inherited
+      delete and safe equal, inherited allow_new equal up to "explicit default vs. nothing")
+    (`effEq`); more precisely `n'` is `n` up to the following raw fields (`simN`, `C18_simN_node`):
+      - `_priority`:            the default priority may have become None;
+      - `_implicit_allow_new`:  the default (True) may have become None;
+      - `_delete`:              an explicit False may have become None where the node inherits False
+                                (from an enclosing node that states it; for a scalar also from nothing);
+      - `_allow_new`:           an explicit value equal to the effective inherited one may have become None;
+      - `_safe`:                an explicit value may have become None where the inherited `safe` is False
+                                or equals it;
+    everything else (`_implicit_delete`, `_implicit_safe`, `_default_safe`, source file, metadata,
+    children) is identical.
+  `C18_dump_fixpoint_effective`: the re-parsed tree dumps to the same representation tree.
+
+  No side condition is left: the dumper records on its stack, for `delete`, what every container hands
+  down (explicit, inherited, or the class default of lists and function nodes), so an explicit `!merge`
+  is dropped only where the node really inherits False.  The witnesses of the two last defects
+  (`a: [!merge 5]`; `x: !merge {f: !call:rec.f {b: !merge {c: 1}}}`) round-trip
+  (`C18_merge_scalar_in_list_kept`, `C18_merge_below_function_node_kept`).
   Definitions and proofs: AY/Lemmas/C18Build.lean (closed form `build` of the loader),
-  AY/Lemmas/C18Effective.lean (`nedWith`, `simN`, `effEq`, the induction `rt_build`).
+  AY/Lemmas/C18Effective.lean (`Inv`, `rc`, `simN`, `effEq`, the induction `rt_build`).
 -/
 import AY.Props.C18
 import AY.Lemmas.C18Effective
@@ -39,7 +42,7 @@ namespace AY
 
 /-! ### Concrete documents used by the examples -/
 
-/-- `!metadata{{delete: True, priority: 1}} {a: !del {x: 1}, b: [!unsafe 2, ~], c: !notnew {{m: 1}} {y: !new z}}` -/
+/-- `!metadata{{delete: True, priority: 1}} {a: !del {x: 1}, b: [!unsafe 2, ~], c: !notnew {{m: 1}} {y: !notnew z}}` -/
 def c18ExEff : Raw :=
   .map .plain { del := some true, prio := some 1 } [
     (.str "a", .map .plain { del := some true } [(.str "x", .scalar .none {} (.lit (.int 1)))]),
@@ -47,66 +50,102 @@ def c18ExEff : Raw :=
     (.str "c", .map .plain { new := some false, md := [("m", .int 1)] } [
       (.str "y", .scalar .plain { new := some false } (.text "z"))])]
 
-/-- `!metadata{{delete: True, priority: 1}} {b: !merge [!del 5]}` -/
+/-- `d: !metadata{{priority: 0, allow_new: True, delete: False}} [!merge {p: !new 1}]` -/
+def c18ExEff2 : Raw :=
+  .map .none {} [
+    (.str "d", .seq .plain { prio := some 0, new := some true, del := some false } [
+      .map .plain { del := some false } [(.str "p", .scalar .plain { new := some true } (.lit (.int 1)))]])]
+
+/-- `e: !unsafe {f: !safe {g: !unsafe 1}}` -/
+def c18ExEff3 : Raw :=
+  .map .none {} [
+    (.str "e", .map .plain { safe := some false } [
+      (.str "f", .map .plain { safe := some true } [(.str "g", .scalar .plain { safe := some false } (.lit (.int 1)))])])]
+
+/-- `!metadata{{delete: True, priority: 1}} {b: !merge [!del 5]}` (the witness of the former finding D17k) -/
 def c18ExShortcut : Raw :=
   .map .plain { del := some true, prio := some 1 } [
     (.str "b", .seq .plain { del := some false } [.scalar .plain { del := some true } (.lit (.int 5))])]
 
-/-- `!force {a: {{k: v}} [1, !weak 2], b: !force ~}`: priority and metadata only -/
-def c18ExPrioMd : Raw :=
-  .map .plain { prio := some 1 } [
-    (.str "a", .seq .plain { md := [("k", .str "v")] } [
-      .scalar .none {} (.lit (.int 1)), .scalar .plain { prio := some (-1) } (.lit (.int 2))]),
-    (.str "b", .scalar .plain { prio := some 1 } (.lit .null))]
+/-- `{a: !metadata{{priority: 0}} {b: !force 1}, c: !new 2, d: !merge 3}`: explicit defaults -/
+def c18ExDefaults : Raw :=
+  .map .none {} [
+    (.str "a", .map .plain { prio := some 0 } [(.str "b", .scalar .plain { prio := some 1 } (.lit (.int 1)))]),
+    (.str "c", .scalar .plain { new := some true } (.lit (.int 2))),
+    (.str "d", .scalar .plain { del := some false } (.lit (.int 3)))]
 
-/-! ### the round trip up to effective flags -/
+/-- `a: [!merge 5]` -/
+def c18ExMergeInList : Raw :=
+  .map .none {} [(.str "a", .seq .none {} [.scalar .plain { del := some false } (.lit (.int 5))])]
+
+/-! ### the round trip up to redundant explicit flags -/
 
 /- "Writing any parsed document with the library's dump and parsing the text back yields a document
-   that is interchangeable with the original … it carries the same user metadata" — for every
-   document `r` over the merge-control vocabulary whose parsed tree `n` satisfies
-   `noExplicitDefault`, the dump succeeds, re-parses (same parse context), and the re-parsed tree
-   `n'` has the same node kinds, keys, key order, scalar content and user metadata as `n` and the
-   same effective `priority`, `delete`, `allow_new` and `safe` at every node (`effEq`); moreover `n'`
-   is `n` with explicit `delete / allow_new / safe` removed only where they repeat the inherited
-   value (`simN`: all raw priorities, inherited flags, source flags, metadata are identical). -/
-theorem C18_roundtrip_effective_partial (env : Env) (r : Raw) (n : Node) (hv : rawMC r = true)
-    (hc : construct env r = .ok n) (hned : noExplicitDefault n = true) :
-    ∃ r' n', represent n = .ok r' ∧ construct env r' = .ok n' ∧ effEq n n' = true ∧ simN n n' = true := by
+   that is interchangeable with the original … it carries the same user metadata" — for EVERY document
+   `r` over the merge-control vocabulary the dump re-parses in the
+   same parse context, and the re-parsed tree `n'` is related to the parsed tree `n` by `simN`
+   (identical up to the raw fields listed in the header) and hence by `effEq` (same kinds, keys,
+   scalars, metadata, effective priority / delete / allow_new / safe, explicit delete = True, and
+   hand-down of every container). -/
+theorem C18_roundtrip_effective (env : Env) (r : Raw) (n : Node) (hv : rawMC r = true)
+    (hc : construct env r = .ok n) :
+    ∃ n', construct env (represent n) = .ok n' ∧ simN n n' = true ∧ effEq n n' = true := by
   rw [construct_build env r hv] at hc
   cases hc
-  obtain ⟨r', h1, h2, h3, _⟩ := rt_build env r ctx0 {} hv (fun q hq => by cases hq) hned
-  exact ⟨r', build env ctx0 r', h1, construct_build env r' h2, effEq_of_simN _ _ h3, h3⟩
+  obtain ⟨h2, h3, _⟩ := rt_build env r ctx0 {} hv inv_top
+  exact ⟨build env ctx0 (represent (build env ctx0 r)), construct_build env _ h2, h3, effEq_of_simN _ _ h3⟩
 
-example : rawMC c18ExEff = true ∧ noExplicitDefault (okOr (construct {} c18ExEff)) = true := by decide
-example := C18_roundtrip_effective_partial {} c18ExEff _ (by decide) rfl (by decide)
--- the statement is genuinely "up to": `a: !del` repeats the `delete` of the root, is not written, and the
--- re-parsed `a` has no explicit `delete` while its effective `delete` is unchanged
-example : (getNode (okOr (construct {} c18ExEff)) [.str "a"]).map (fun m => (m.flags.del, eDel m)) = some (some true, true) ∧
-    (getNode (reparsed c18ExEff) [.str "a"]).map (fun m => (m.flags.del, eDel m)) = some (none, true) ∧
+example : rawMC c18ExEff = true := rfl
+example := C18_roundtrip_effective {} c18ExEff _ rfl rfl
+-- the statement is genuinely "up to": `a: !del` is kept (explicit True always is), but `c.y: !notnew`
+-- repeats what `c` states, is not written, and the re-parsed `c.y` has no explicit `allow_new`
+example : (getNode (okOr (construct {} c18ExEff)) [.str "c", .str "y"]).map (fun m => m.flags.new) = some (some false) ∧
+    (getNode (reparsed c18ExEff) [.str "c", .str "y"]).map (fun m => m.flags.new) = some none ∧
+    (getNode (reparsed c18ExEff) [.str "a"]).map (fun m => m.flags.del) = some (some true) ∧
     effEq (okOr (construct {} c18ExEff)) (reparsed c18ExEff) = true := by
-  refine ⟨by decide, by decide, by decide⟩
+  refine ⟨rfl, rfl, rfl, rfl⟩
+example : rawMC c18ExEff2 = true ∧ effEq (okOr (construct {} c18ExEff2)) (reparsed c18ExEff2) = true ∧
+    rawMC c18ExEff3 = true ∧ effEq (okOr (construct {} c18ExEff3)) (reparsed c18ExEff3) = true :=
+  ⟨rfl, rfl, rfl, rfl⟩
+-- explicit defaults (priority 0 overriding an inner `!force`, `!new`, `!merge` on a scalar outside any list)
+example : rawMC c18ExDefaults = true ∧
+    effEq (okOr (construct {} c18ExDefaults)) (reparsed c18ExDefaults) = true := ⟨rfl, rfl⟩
+example : (getNode (okOr (construct {} c18ExDefaults)) [.str "a", .str "b"]).map (fun m => (m.flags.prio, ePrio m.flags)) = some (some 0, 0) ∧
+    (getNode (reparsed c18ExDefaults) [.str "a", .str "b"]).map (fun m => (m.flags.prio, ePrio m.flags)) = some (none, 0) := ⟨rfl, rfl⟩
 
-/- "Dumping the re-parsed document produces the same text again." — under the same hypotheses the
+/- "Dumping the re-parsed document produces the same text again." — for every such document the
    re-parsed tree dumps to the same representation tree. -/
-theorem C18_dump_fixpoint_effective_partial (env : Env) (r : Raw) (n : Node) (hv : rawMC r = true)
-    (hc : construct env r = .ok n) (hned : noExplicitDefault n = true) :
-    ∃ r' n', represent n = .ok r' ∧ construct env r' = .ok n' ∧ represent n' = .ok r' := by
+theorem C18_dump_fixpoint_effective (env : Env) (r : Raw) (n : Node) (hv : rawMC r = true)
+    (hc : construct env r = .ok n) :
+    ∃ n', construct env (represent n) = .ok n' ∧ represent n' = represent n := by
   rw [construct_build env r hv] at hc
   cases hc
-  obtain ⟨r', h1, h2, _, h4⟩ := rt_build env r ctx0 {} hv (fun q hq => by cases hq) hned
-  exact ⟨r', build env ctx0 r', h1, construct_build env r' h2, h4⟩
+  obtain ⟨h2, _, h4⟩ := rt_build env r ctx0 {} hv inv_top
+  exact ⟨build env ctx0 (represent (build env ctx0 r)), construct_build env _ h2, h4⟩
 
-example := C18_dump_fixpoint_effective_partial {} c18ExEff _ (by decide) rfl (by decide)
-example : represent (reparsed c18ExEff) = represent (okOr (construct {} c18ExEff)) ∧
-    (represent (reparsed c18ExEff)).toBool = true := ⟨rfl, by decide⟩
+example := C18_dump_fixpoint_effective {} c18ExEff _ rfl rfl
+example : represent (reparsed c18ExEff) = represent (okOr (construct {} c18ExEff)) := rfl
 
-/- What `effEq` gives at a node: equal kind / scalar content, equal user metadata and equal effective
-   flags (the relation is checked recursively over equal key lists). -/
+/- The witness of the former finding D17k (a flag written as a simple tag was not on the dumper's
+   stack) is inside the theorem's domain now and round-trips: the element keeps its `!del`. -/
+theorem C18_shortcut_tag_stack_kept :
+    rawMC c18ExShortcut = true ∧
+    construct {} (represent (okOr (construct {} c18ExShortcut))) = construct {} c18ExShortcut ∧
+    (getNode (reparsed c18ExShortcut) [.str "b", .int 0]).map (fun m => (m.flags.del, eDel m)) = some (some true, true) := by
+  refine ⟨rfl, rfl, rfl⟩
+
+/-! ### what the two relations say at a node -/
+
+/- What `effEq` gives at a node: equal kind / scalar content, equal user metadata, equal effective
+   flags, the same explicit `delete = True`, the same keys in the same order, and for a container an
+   equivalent hand-down to its children (the relation is checked recursively). -/
 theorem C18_effEq_node (n n' : Node) (h : effEq n n' = true) :
     n.isComp = n'.isComp ∧ ePrio n.flags = ePrio n'.flags ∧ eDel n = eDel n' ∧
     eNew n.flags = eNew n'.flags ∧ eSafe n.flags = eSafe n'.flags ∧ n.flags.md = n'.flags.md ∧
+    (n.flags.del = some true ↔ n'.flags.del = some true) ∧
     n.children.map (·.1) = n'.children.map (·.1) ∧
-    (∀ f k, n = .leaf f k → ∃ f', n' = .leaf f' k) := by
+    (∀ f k, n = .leaf f k → ∃ f', n' = .leaf f' k) ∧
+    (∀ f k cs, n = .comp f k cs → ∃ f' cs', n' = .comp f' k cs' ∧ handsDownEq (childKw f k) (childKw f' k) = true) := by
   have keys : ∀ (l l' : List (Key × Node)), effEqL l l' = true → l.map (·.1) = l'.map (·.1) := by
     intro l
     induction l with
@@ -118,6 +157,9 @@ theorem C18_effEq_node (n n' : Node) (h : effEq n n' = true) :
       | cons b rest' =>
         simp only [effEqL, Bool.and_eq_true, beq_iff_eq] at hl
         simp [hl.1.1, ih rest' hl.2]
+  have dt : ∀ (a b : Option Bool), ((a == some true) == (b == some true)) = true → (a = some true ↔ b = some true) := by
+    intro a b hab
+    rcases a with _ | _ | _ <;> rcases b with _ | _ | _ <;> simp_all
   cases n with
   | leaf f k =>
     cases n' with
@@ -126,70 +168,97 @@ theorem C18_effEq_node (n n' : Node) (h : effEq n n' = true) :
       simp only [effEq, Bool.and_eq_true, beq_iff_eq] at h
       obtain ⟨rfl, he⟩ := h
       simp only [effF, Bool.and_eq_true, beq_iff_eq] at he
-      exact ⟨rfl, he.1.1.1.1, he.1.1.1.2, he.1.1.2, he.1.2, he.2, rfl,
-        fun g k' e => by cases e; exact ⟨f', rfl⟩⟩
+      exact ⟨rfl, he.1.1.1.1.1, he.1.1.1.1.2, he.1.1.1.2, he.1.1.2, he.1.2, dt _ _ (by simpa using he.2), rfl,
+        (fun g k' e => by cases e; exact ⟨f', rfl⟩), (fun g k' cs e => by cases e)⟩
   | comp f k cs =>
     cases n' with
     | leaf f' k' => simp [effEq] at h
     | comp f' k' cs' =>
       simp only [effEq, Bool.and_eq_true, beq_iff_eq] at h
-      obtain ⟨⟨rfl, he⟩, hl⟩ := h
+      obtain ⟨⟨⟨rfl, he⟩, hh⟩, hl⟩ := h
       simp only [effF, Bool.and_eq_true, beq_iff_eq] at he
-      exact ⟨rfl, he.1.1.1.1, he.1.1.1.2, he.1.1.2, he.1.2, he.2, keys cs cs' hl,
-        fun g k' e => by cases e⟩
+      exact ⟨rfl, he.1.1.1.1.1, he.1.1.1.1.2, he.1.1.1.2, he.1.1.2, he.1.2, dt _ _ (by simpa using he.2), keys cs cs' hl,
+        (fun g k' e => by cases e), (fun g k' cs0 e => by cases e; exact ⟨f', cs', rfl, hh⟩)⟩
 
-example : effEq (.leaf { del := some true, iDel := some true } (.scalar (.int 1)))
-    (.leaf { iDel := some true } (.scalar (.int 1))) = true := by decide
+example : effEq (.leaf { new := some true, iNew := some true, prio := some 0 } (.scalar (.int 1)))
+    (.leaf {} (.scalar (.int 1))) = true := by decide
 
-/-! ### priority and metadata only: dump ∘ parse is the identity -/
+/- What `simN` allows at a node, field by field (`f` the parsed node's raw flags, `f'` the re-parsed
+   ones): exactly the differences listed in the header, everything else identical. -/
+theorem C18_simN_node (n n' : Node) (h : simN n n' = true) :
+    let f := n.flags; let f' := n'.flags
+    (f'.prio = f.prio ∨ (f'.prio = none ∧ f.prio = some Tables.defaultPriority)) ∧
+    f'.md = f.md ∧ f'.iDel = f.iDel ∧ f'.iSafe = f.iSafe ∧ f'.dSafe = f.dSafe ∧ f'.src = f.src ∧
+    (f'.iNew = f.iNew ∨ (f'.iNew = none ∧ f.iNew = some Tables.defaultAllowNew)) ∧
+    (f'.del = f.del ∨ (f'.del = none ∧ f.del = some false ∧ eDel n = false)) ∧
+    (f'.new = f.new ∨ (f'.new = none ∧ f.new = some (eNew f))) ∧
+    (f'.safe = f.safe ∨ (f'.safe = none ∧ (f.iSafe = some false ∨ f.safe = f.iSafe))) := by
+  cases n with
+  | leaf f k =>
+    cases n' with
+    | comp f' k' cs' => simp [simN] at h
+    | leaf f' k' =>
+      simp only [simN, Bool.and_eq_true] at h
+      obtain ⟨a1, a2, a3, a4, a5, a6, a7, a8, a9, a10⟩ := (simF_iff _ _ f f').1 h.1
+      refine ⟨a1, a2, a3, a5, a6, a7, a4, ?_, a9, a10⟩
+      rcases a8 with e | ⟨e1, e2, e3 | ⟨_, e3, e4⟩⟩
+      · exact .inl e
+      · exact .inr ⟨e1, e2, by simp [eDel, Node.flags, e2]⟩
+      · exact .inr ⟨e1, e2, by simp [eDel, Node.flags, e2]⟩
+  | comp f k cs =>
+    cases n' with
+    | leaf f' k' => simp [simN] at h
+    | comp f' k' cs' =>
+      simp only [simN, Bool.and_eq_true] at h
+      obtain ⟨a1, a2, a3, a4, a5, a6, a7, a8, a9, a10⟩ := (simF_iff _ _ f f').1 h.1.1
+      refine ⟨a1, a2, a3, a5, a6, a7, a4, ?_, a9, a10⟩
+      rcases a8 with e | ⟨e1, e2, e3 | ⟨e3, _⟩⟩
+      · exact .inl e
+      · exact .inr ⟨e1, e2, by simp [eDel, Node.flags, e2]⟩
+      · cases e3
 
-/- For documents whose parsed tree carries no explicit `delete / allow_new / safe` (tags `!force`,
-   `!weak`, `!metadata{{priority: p}}`, user metadata, on mappings, lists and scalars at any depth,
-   nested priority tags included) and no explicit default priority, the re-parsed tree IS the
-   original tree: every raw and effective attribute of every node is preserved (the dumped
-   document may still differ from the source: a priority is written where it is imposed, an inner
-   tag overridden by an outer one is written with the outer priority). -/
-theorem C18_roundtrip_prio_md_partial (env : Env) (r : Raw) (n : Node) (hv : rawMC r = true)
-    (hc : construct env r = .ok n) (hpm : noDNS n = true) (hned : noExplicitDefault n = true) :
-    ∃ r', represent n = .ok r' ∧ construct env r' = .ok n := by
-  obtain ⟨r', n', h1, h2, _, h4⟩ := C18_roundtrip_effective_partial env r n hv hc hned
-  exact ⟨r', h1, by rw [h2, simN_eq n n' h4 hpm]⟩
+example : simN (.leaf { del := some false, iDel := some false } (.scalar (.int 1)))
+    (.leaf { iDel := some false } (.scalar (.int 1))) = true := by decide
 
-example : rawMC c18ExPrioMd = true ∧ noDNS (okOr (construct {} c18ExPrioMd)) = true ∧
-    noExplicitDefault (okOr (construct {} c18ExPrioMd)) = true := by decide
-example := C18_roundtrip_prio_md_partial {} c18ExPrioMd _ (by decide) rfl (by decide) (by decide)
--- the hypothesis on the default priority is needed for the identity (not for `effEq`):
--- `!metadata{{priority: 0}} 1` is dumped as `1`, the explicit priority 0 becomes "no priority"
-example : (okOr (construct {} (.map .none {} [(.str "a", .scalar .plain { prio := some 0 } (.lit (.int 1)))]))).children.map
-      (fun kv => kv.2.flags.prio) = [some 0] ∧
-    (reparsed (.map .none {} [(.str "a", .scalar .plain { prio := some 0 } (.lit (.int 1)))])).children.map
-      (fun kv => kv.2.flags.prio) = [none] := by decide
+/-! ### the witnesses of the two last dumper defects round-trip -/
 
-/-! ### the hypothesis excludes exactly the recorded mechanisms, and one more -/
+/- `a: [!merge 5]` (repaired): the list hands down its class default `delete = True`, which is now on the
+   dumper's stack, so the element's explicit `!merge` differs from it and is written; the document
+   re-parses to the same tree. -/
+theorem C18_merge_scalar_in_list_kept :
+    rawMC c18ExMergeInList = true ∧
+    represent (okOr (construct {} c18ExMergeInList)) = c18ExMergeInList ∧
+    construct {} (represent (okOr (construct {} c18ExMergeInList))) = construct {} c18ExMergeInList ∧
+    (getNode (reparsed c18ExMergeInList) [.str "a", .int 0]).map (fun m => (m.flags.del, eDel m)) =
+      some (some false, false) := by
+  refine ⟨rfl, rfl, rfl, rfl⟩
 
-/- The documents of the recorded findings violate `noExplicitDefault`: D17a (`a: !del []`, explicit
-   `delete` equal to the class default) and D17g (`x: !del {a: !merge {p: 1}}`, class default under
-   a parent that imposes the opposite). -/
-theorem C18_known_findings_excluded :
-    noExplicitDefault (okOr (construct {} c18ExDel)) = false ∧
-    noExplicitDefault (okOr (construct {} c18ExUnder)) = false := by
-  refine ⟨by decide, by decide⟩
+/-- `x: !merge {f: !call:rec.f {b: !merge {c: 1}}}` -/
+def c18ExMergeBelowCall : Raw :=
+  .map .none {} [(.str "x", .map .plain { del := some false } [
+    (.str "f", .map (.call "rec.f") {} [
+      (.str "b", .map .plain { del := some false } [(.str "c", .scalar .none {} (.lit (.int 1)))])])])]
 
-/- NEW mechanism (not among D17a–j), replayed on the implementation: a container whose only kept
-   flag is written as a simple tag is not pushed on the dumper's stack.  In
-   `!metadata{{delete: True, priority: 1}} {b: !merge [!del 5]}` the list `b` is written `!merge`
-   (simple tag), the stack below it still says `delete = True` from the root, so the element's
-   explicit `!del` is dropped as "inherited" — but the re-parsed element inherits `delete = False`
-   from `b`.  Dump: `b: !merge [5]`; the element's effective `delete` changes from True to False.
-   No flag equals a type default here: only part (2) of the hypothesis fails. -/
-theorem C18_shortcut_tag_stack_counterexample :
-    rawMC c18ExShortcut = true ∧
-    (getNode (okOr (construct {} c18ExShortcut)) [.str "b", .int 0]).map (fun m => (m.flags.del, eDel m)) =
-      some (some true, true) ∧
-    (getNode (reparsed c18ExShortcut) [.str "b", .int 0]).map (fun m => (m.flags.del, eDel m)) =
-      some (none, false) ∧
-    effEq (okOr (construct {} c18ExShortcut)) (reparsed c18ExShortcut) = false ∧
-    noExplicitDefault (okOr (construct {} c18ExShortcut)) = false := by
-  refine ⟨by decide, by decide, by decide, by decide, by decide⟩
+/- `x: !merge {f: !call:rec.f {b: !merge {c: 1}}}` (repaired; outside `rawMC`: a function node): the
+   function node hands down the `delete = True` its constructor sets, the stack says so, and `b`'s
+   explicit `!merge` is written although an outer node states `delete = False`; the dump is the
+   document itself and re-parses to the same tree. -/
+theorem C18_merge_below_function_node_kept :
+    represent (okOr (construct {} c18ExMergeBelowCall)) = c18ExMergeBelowCall ∧
+    construct {} (represent (okOr (construct {} c18ExMergeBelowCall))) = construct {} c18ExMergeBelowCall :=
+  ⟨rfl, rfl⟩
+
+/-
+  Not proved (PARTIAL): the general theorem covers mappings, lists and scalars; function nodes and the
+  other node kinds are covered by concrete theorems and by the correspondence check only.  Also not
+  proved: that `effEq`/`simN` is preserved by `merge` on either side (so that the
+  substitution of the re-parsed document in a merge sequence cannot be observed).  It does not hold
+  step by step: `_replace_other` reads the loser's RAW `_safe`, so when a dropped `!unsafe` (repeating
+  an enclosing `!unsafe`) loses a leaf merge, the winner becomes explicitly unsafe with the original and
+  stays as it is with the re-parsed document — the effective flags agree again only after the enclosing
+  node has been merged and has re-propagated.  A proof has to go through the whole `mergeF` with that
+  weaker, path-dependent invariant; the statement is covered by the harness (substitution at every
+  position of generated merge sequences, merged tree and evaluated config compared).
+-/
 
 end AY
